@@ -28,8 +28,9 @@ func init() {
 
 	// init encode mode
 	encOpts := cbor.EncOptions{
-		Sort:        cbor.SortCoreDeterministic, // sort map keys
-		IndefLength: cbor.IndefLengthForbidden,  // no streaming
+		Sort:          cbor.SortCoreDeterministic, // sort map keys
+		IndefLength:   cbor.IndefLengthForbidden,  // no streaming
+		BigIntConvert: cbor.BigIntConvertNone,     // keep bignums as bignums: the decoder refuses integers beyond int64
 	}
 	encMode, err = encOpts.EncMode()
 	if err != nil {
